@@ -352,6 +352,166 @@ class DiscoverStages(Target):
         return [('every-stage-file-is-found-whatever-its-index', dict(out.value) == want)]
 
 
-TARGETS = [ParseRouting(), KnownOptionsTable(), ValidateComponentFrame(), DiscoverStages()]
+class ParseStage(Target):
+    """One stage file read back: every component section becomes exactly one component (in file order, with the user
+    variables as defaults that the section overrides), the [DEFAULT] section becomes the stage's variables and blueprint
+    under ITS stage index, [META] is not a component, and what earlier stages contributed stays."""
+    prop = 'C19'
+    name = 'Dosini.parse_stage'
+    file = DS
+    qualname = 'Dosini.parse_stage'
+    compare_return = False
+    trusted = ["Dosini.parse_component (under contract above) -- here an extern that returns the options it was given"]
+    assumptions = ["stage index 0, 1 or 12; 0..2 component sections; with/without [DEFAULT] options and [META]"]
+
+    def setup(self, c):
+        g = c.ghost
+        g['parsed'] = []
+        idx = c.one_of('stage_index', [0, 1, 12])
+        ncomp = c.choice('component_sections', 3)
+        has_default = c.one_of('DEFAULT_section', [False, True])
+        has_meta = c.one_of('META_section', [False, True])
+        stage_dict = {}
+        if has_default:
+            stage_dict['DEFAULT'] = {'stagevar': 'sv', 'queue': 'normal'}
+        if has_meta:
+            stage_dict['META'] = {'stage-name': 'Setup'}
+        for k in range(ncomp):
+            stage_dict['Comp%d' % k] = {'executable': 'exe%d' % k, 'uservar': 'from-section'} if k == 0 else {'executable': 'exe%d' % k}
+        user = {'uservar': 'from-user-file', 'other': 'u'}
+
+        def parse_component(c, options, name, stage_index, safe_missing=None, out_errors=None, dosini_section=None, **k):
+            g['parsed'].append((name, stage_index, dict(options)))
+            if name == 'StageBlueprint':
+                comp = {'name': name, 'stage': stage_index}
+                if options:
+                    comp['variables'] = {'stagevar': options.get('stagevar')}
+                    comp['resourceManager'] = {'lsf': {'queue': options.get('queue')}}
+                return comp
+            return {'name': name, 'stage': stage_index, 'options': dict(options)}
+        cls = Obj('Dosini-class', parse_component=Extern('parse_component', parse_component))
+        earlier = {'components': [{'name': 'Earlier', 'stage': 0}]}
+        import copy
+        return State(args=[cls, earlier, idx, stage_dict, user], idx=idx, ncomp=ncomp, has_default=has_default, user=user,
+                     stage_dict=copy.deepcopy(stage_dict), earlier=copy.deepcopy(earlier))
+
+    def real_function(self):
+        return Dosini.parse_stage.__func__
+
+    def ensures(self, c, st, out):
+        if out.kind == 'raise':
+            return [('no-exception', False)]
+        res = out.value
+        comps = res.get('components', [])
+        want = [{'name': 'Earlier', 'stage': 0}]
+        for k in range(st.ncomp):
+            opts = dict(st.user)
+            opts.update(st.stage_dict['Comp%d' % k])
+            want.append({'name': 'Comp%d' % k, 'stage': st.idx, 'options': opts})
+        cl = [('every-component-section-is-one-component-in-file-order', comps == want)]
+        sv = res.get('variables', {}).get('default', {}).get('stages', {})
+        bp = res.get('blueprint', {}).get('default', {}).get('stages', {})
+        if st.has_default:
+            cl.append(('stage-defaults-are-stored-under-their-own-stage-index',
+                       sv == {st.idx: {'stagevar': 'sv'}} and bp == {st.idx: {'resourceManager': {'lsf': {'queue': 'normal'}}}}))
+        else:
+            cl.append(('no-stage-defaults-no-entries', sv == {} and bp == {}))
+        return cl
+
+    def cross_compare(self, *a):
+        return []
+
+
+class InstanceRoundTripNative:
+    """BOUNDED stand-in (native, never counted as proved): whole synthetic instances (3 and 12 stages; local / lsf /
+    kubernetes components, global / stage / component variables, an environment, status and output sections) are assembled
+    with the real parsers, written with the real Dosini.dump (+ status, output) into a scratch directory outside /repo and
+    /verif, loaded back with Dosini.load_from_directory and compared: component identifiers, every component's resolved
+    configuration, environments, status and output sections."""
+    name = 'instance-roundtrip[bounded,native]'
+
+    @staticmethod
+    def build(n):
+        flowir = {}
+        flowir = Dosini.parse_environment_dicts(flowir, {'default': {'ENV-TOOLS': {'PATH': '/opt/tools/bin:$PATH', 'TOOLS_HOME': '/opt/tools'}}})
+        flowir = Dosini.parse_variables(flowir, {'default': {'GLOBAL': {'scale': '2', 'defaultq': 'normal'}}})
+        status = {}
+        for idx in range(n):
+            backend = ['local', 'lsf', 'kubernetes'][idx % 3]
+            options = {'executable': 'bin/step.sh', 'arguments': '--index %d --scale %%(scale)s --label %%(label)s' % idx,
+                       'environment': 'tools', 'job-type': backend, 'walltime': '%d' % (60 + idx),
+                       'numberProcesses': '%d' % (1 + idx % 4), 'label': 'step-%d' % idx, 'max-restarts': '%d' % (idx % 3)}
+            if backend == 'lsf':
+                options['queue'] = '%(defaultq)s'
+            if backend == 'kubernetes':
+                options['k8s-image'] = 'registry/image:%d' % idx
+            if idx > 0:
+                options['references'] = 'stage%d.Step%d:ref' % (idx - 1, idx - 1)
+                options['arguments'] += ' stage%d.Step%d:ref' % (idx - 1, idx - 1)
+            stage_dict = {'DEFAULT': {'stage-name': 'Stage number %d' % idx, 'stagevar': 'sv%d' % idx}, 'Step%d' % idx: options}
+            flowir = Dosini.parse_stage(flowir, idx, stage_dict, user_variables={})
+            status['STAGE%d' % idx] = {'stage-weight': '%s' % (1.0 / n)}
+        flowir = Dosini.parse_status(flowir, status)
+        flowir = Dosini.parse_output(flowir, {'Final': {'stages': 'stage%d' % (n - 1), 'data-in': 'Step%d/result.csv:copy' % (n - 1),
+                                                        'description': '"the last result"', 'type': 'csv'}})
+        flowir[FlowIR.FieldPlatforms] = ['default']
+        return FlowIR.compress_flowir(flowir)
+
+    def run(self, tier='quick', seed=0):
+        import shutil, tempfile, logging
+        FlowIRConcrete = flowir_mod.FlowIRConcrete
+        bad, cases = [], 0
+        logging.disable(logging.CRITICAL)
+        try:
+            for n in (3, 12):
+                cases += 1
+                written = FlowIRConcrete(self.build(n), FlowIR.LabelDefault, {}).instance(ignore_errors=True, fill_in_all=False)
+                out_dir = tempfile.mkdtemp(prefix='pyvc-c19-')
+                try:
+                    dos = Dosini()
+                    dos.dump(written, out_dir, update_existing=True, is_instance=True)
+                    dos._dump_status(written, out_dir)
+                    dos._dump_output(written, out_dir)
+                    loaded_raw = dos.load_from_directory(out_dir, [], {}, is_instance=True)
+                finally:
+                    shutil.rmtree(out_dir, ignore_errors=True)
+                cw = FlowIRConcrete(written, FlowIR.LabelDefault, {})
+                cl = FlowIRConcrete(loaded_raw, FlowIR.LabelDefault, {})
+                loaded = cl.instance(ignore_errors=True, fill_in_all=False)
+                ids_w = sorted((x['stage'], x['name']) for x in written[FlowIR.FieldComponents])
+                ids_l = sorted((x['stage'], x['name']) for x in loaded[FlowIR.FieldComponents])
+                problems = []
+                if ids_w != ids_l:
+                    problems.append("components written %s, loaded %s" % (ids_w, ids_l))
+                for cid in ids_w:
+                    if cid in ids_l:
+                        a = cw.get_component_configuration(cid, raw=False, include_default=True)
+                        b = cl.get_component_configuration(cid, raw=False, include_default=True)
+                        if a != b:
+                            diff = sorted(k for k in set(a) | set(b) if a.get(k) != b.get(k))
+                            problems.append("configuration of stage%d.%s differs in %s" % (cid[0], cid[1], diff))
+                for field in (FlowIR.FieldEnvironments, FlowIR.FieldStatusReport, FlowIR.FieldOutput):
+                    if written.get(field) != loaded.get(field):
+                        problems.append("%s differs" % field)
+                if problems:
+                    bad.append({"what": "%d-stage instance: %s" % (n, '; '.join(problems[:4])), "replay": self._replay(n, problems)})
+        finally:
+            logging.disable(logging.NOTSET)
+        return {"name": self.name, "bounded": True, "bound": "synthetic instances of 3 and 12 stages", "cases": cases,
+                "violations": bad[:3], "summary": "%d instances, %d not read back identically" % (cases, len(bad))}
+
+    def _replay(self, n, problems):
+        import json, os
+        base = os.environ.get('PYVC_OUT') or os.path.dirname(os.path.dirname(os.path.abspath(__file__)))
+        p = os.path.join(base, 'replays', 'C19')
+        os.makedirs(p, exist_ok=True)
+        f = os.path.join(p, 'instance_roundtrip_%d.json' % n)
+        json.dump({"property": "C19", "check": self.name, "stages": n, "problems": problems,
+                   "how": "contracts/C19.py InstanceRoundTripNative.build(%d) -> FlowIRConcrete.instance -> Dosini.dump -> "
+                          "Dosini.load_from_directory -> compare" % n}, open(f, 'w'), indent=1)
+        return f
+
+
+TARGETS = [ParseRouting(), KnownOptionsTable(), ValidateComponentFrame(), DiscoverStages(), ParseStage()]
 LEMMAS = [KeyTables()]
-BOUNDED = [SectionRoundTrip()]
+BOUNDED = [SectionRoundTrip(), InstanceRoundTripNative()]
